@@ -13,7 +13,7 @@ func init() {
 	register(&PropertyDef{
 		ID:          "C09",
 		Title:       "Concurrent sends never reuse a counter, key or nonce; chain only moves forward",
-		Explanation: "Decides, for every schedule at once, the locking and arithmetic shape that makes counters unique: (D1) in SealEnvelope the read of the own chain key, the sealing (secretbox.Seal, Sign), the write of the next precomputed key and the write of the advanced chain key all happen with the secret store's message mutex write-held, acquired once before the first of them, with no release of that mutex anywhere in the code reachable from those steps; (D3) every Put on the chain-key namespace that can overwrite an existing entry is reached only on call paths holding that write lock (creation puts, dominated by the 'no chain key stored' outcome of a lookup, are exempt: they cannot overwrite); (D4) the updater of the stored chain key is monotone: evaluated abstractly over the orderings {new<stored, new=stored, new>stored} it never writes when new<stored and always writes when new>stored; (D6) the own chain key is looked up, generated on a miss and stored inside one write-locked critical section; the updater fails when it cannot read the stored key; (D5) the counter sealed into the headers and used as nonce is the stored counter + 1 and the chain key stored afterwards carries stored counter + 1 (same increment on both sides); (D7) the own chain key is created only when its lookup reported exactly the 'missing' sentinel (tested on the lookup's error directly, or handed on by a module helper as its 'not found, no error' outcome, every such return of the helper being itself on the sentinel side and the helper's error tested nil by the creator), and every function behind that lookup returns the sentinel only on the datastore's own not-found outcome (err == / errors.Is datastore.ErrNotFound) or after a successful read - an I/O fault or a cancelled context surfaces as a different error, so a transient read fault can never replace an advanced chain key by a fresh one at counter 0; (D8) the chain moves forward by SealEnvelope only: on every call path from OpenEnvelopePayload to an overwriting Put of a chain key the update is skipped when the sender decoded from headers.DevicePk equals the own-device parameter (or runs when that parameter is nil), and every module call of OpenEnvelopePayload passes as that parameter the Device() key of an OwnMemberDevice (through locals, fields and helpers) or nil - never Member() or a foreign key. Not decided (D7/D8): implementations of the datastore/keystore interfaces outside the module; that the OwnMemberDevice whose Device() is passed belongs to the same group as the store. Not decided: that every envelope opens at a receiver (C01/C02), behaviour under real parallel runs, datastore atomicity.",
+		Explanation: "Decides, for every schedule at once, the locking and arithmetic shape that makes counters unique: (D1) in SealEnvelope the read of the own chain key, the sealing (secretbox.Seal, Sign), the write of the next precomputed key and the write of the advanced chain key all happen with the secret store's message mutex write-held, acquired once before the first of them, with no release of that mutex anywhere in the code reachable from those steps; (D3) every Put on the chain-key namespace that can overwrite an existing entry is reached only on call paths holding that write lock (creation puts, dominated by the 'no chain key stored' outcome of a lookup, are exempt: they cannot overwrite); (D4) the updater of the stored chain key is monotone: evaluated abstractly over the orderings {new<stored, new=stored, new>stored} it never writes when new<stored and always writes when new>stored; (D6) the own chain key is looked up, generated on a miss and stored inside one write-locked critical section; the updater fails when it cannot read the stored key; (D5) the counter sealed into the headers and used as nonce is the stored counter + 1 and the chain key stored afterwards carries stored counter + 1 (same increment on both sides); (D7) the own chain key is created only when its lookup reported exactly the 'missing' sentinel (tested on the lookup's error directly, or handed on by a module helper as its 'not found, no error' outcome, every such return of the helper being itself on the sentinel side and the helper's error tested nil by the creator), and every function behind that lookup returns the sentinel only on the datastore's own not-found outcome (err == / errors.Is datastore.ErrNotFound) or after a successful read - an I/O fault or a cancelled context surfaces as a different error, so a transient read fault can never replace an advanced chain key by a fresh one at counter 0; (D8) the chain moves forward by SealEnvelope only: on every call path from OpenEnvelopePayload to an overwriting Put of a chain key the update is skipped when the sender decoded from headers.DevicePk equals the own-device parameter (or runs when that parameter is nil), and every module call of OpenEnvelopePayload passes as that parameter the Device() key of an OwnMemberDevice (through locals, fields and helpers) or nil - never Member() or a foreign key. A call through a local table of closures (a local composite literal of statically known functions that is only indexed, e.g. steps := []func() error{...}; for _, st := range steps { st() }) is resolved to its elements: the module call graph is completed with these edges before any rule runs, so lock contexts (D1/D3/D6), effect summaries and the D8 guard - which may sit inside an element closure and refer to captured, singly-assigned variables - are decided through the table. Not decided (D7/D8): implementations of the datastore/keystore interfaces outside the module; that the OwnMemberDevice whose Device() is passed belongs to the same group as the store. Not decided: that every envelope opens at a receiver (C01/C02), behaviour under real parallel runs, datastore atomicity.",
 		Trusted:     []string{"go/ssa (x/tools v0.29.0)", "sync.RWMutex semantics", "lock identity by owner type + field (one message mutex per secret store)", "go-datastore: Get returns ErrNotFound (possibly wrapped) iff the key is absent", "errcode.Is compares the top-level code only"},
 		Assumptions: []string{"a secret store is not shared between two datastores; the datastore's Put is atomic per key"},
 		Floors:      map[string]int{"D1": 3, "D3": 3, "D4": 4, "D5": 3, "D6": 1, "D7": 2, "D8": 2},
@@ -117,6 +117,7 @@ func creationGuarded(w *World) func(ssa.Instruction) bool {
 
 func runC09(c *Ctx) {
 	w := c.W
+	c.count("local_closure_tables", len(c09Tables(w).bySite)) // completes the call graph: must come first
 	ei := w.effects()
 	li := w.locks()
 	seal := secretStoreMethod(w, "SealEnvelope")
@@ -1259,11 +1260,11 @@ func c09OutcomeOf(v ssa.Value) string {
 // c09OwnParamIndex traces v (inside fn, a function of scope) back to a parameter of root
 // through the call sites of scope functions; -1 when it is not exactly one root parameter.
 func c09OwnParamIndex(w *World, v ssa.Value, root *ssa.Function, scope map[*ssa.Function]int, depth int) int {
-	v = stripConv(v)
+	v = c09Resolve(v)
 	// the raw bytes of a key stand for the key: k.Raw()
 	if ex, ok := v.(*ssa.Extract); ok && ex.Index == 0 {
 		if call, ok := ex.Tuple.(*ssa.Call); ok && call.Common().IsInvoke() && call.Common().Method.Name() == "Raw" {
-			v = stripConv(call.Common().Value)
+			v = c09Resolve(call.Common().Value)
 		}
 	}
 	p, ok := v.(*ssa.Parameter)
@@ -1311,13 +1312,7 @@ func c09OwnParamIndex(w *World, v ssa.Value, root *ssa.Function, scope map[*ssa.
 
 // c09IsSenderKey: v derives from the DevicePk field of the message headers.
 func c09IsSenderKey(w *World, v ssa.Value) bool {
-	rs := rootsOf(provCfg{W: w, MaxDepth: 3}, v)
-	for r := range rs {
-		if (strings.HasPrefix(r, "param:") || strings.HasPrefix(r, "base:")) && strings.HasSuffix(r, ".DevicePk") {
-			return true
-		}
-	}
-	return false
+	return c09DerivesFromDevicePk(v, 0, map[ssa.Value]bool{})
 }
 
 type c09OwnGuard struct {
@@ -1703,4 +1698,372 @@ func checkOwnReadBack(c *Ctx, rule string) {
 	if nCalls == 0 {
 		c.undecided(rule, "OpenEnvelopePayload callers", token.NoPos, "no module call of SecretStore.OpenEnvelopePayload found")
 	}
+}
+
+// ---------------------------------------------------------------------------
+// Local tables of closures: `steps := []func() error{f0, f1, ...}; for _, st := range steps
+// { if err := st(); ... }`. The call st() has no static callee; when the table is a local
+// composite literal whose elements are all statically known functions and which is used for
+// nothing but being indexed, the call is a call of each element, and a forward range loop
+// runs them in the order of the literal. The module call graph is completed with these edges
+// (so that effect summaries, lock contexts and reachability see through the table) and the
+// element order is kept for the write-order rules.
+
+type c09TableCall struct {
+	Site    ssa.CallInstruction
+	Elems   []*ssa.Function // in literal order
+	Ordered bool            // called by a forward range loop: element k runs before element k+1
+}
+
+type c09TableInfo struct {
+	bySite map[ssa.CallInstruction]*c09TableCall
+	byFn   map[*ssa.Function][]*c09TableCall
+	parent map[*ssa.Function]*c09TableCall // element -> table call
+}
+
+func c09FuncValue(v ssa.Value) *ssa.Function {
+	for {
+		switch x := v.(type) {
+		case *ssa.ChangeType:
+			v = x.X
+			continue
+		case *ssa.MakeClosure:
+			f, _ := x.Fn.(*ssa.Function)
+			return f
+		case *ssa.Function:
+			return x
+		}
+		return nil
+	}
+}
+
+// c09TableCallOf recognises ci as a call through a local literal table.
+func c09TableCallOf(ci ssa.CallInstruction) *c09TableCall {
+	cc := ci.Common()
+	if cc.IsInvoke() {
+		return nil
+	}
+	ld, ok := cc.Value.(*ssa.UnOp)
+	if !ok || ld.Op != token.MUL {
+		return nil
+	}
+	ia, ok := ld.X.(*ssa.IndexAddr)
+	if !ok {
+		return nil
+	}
+	var al *ssa.Alloc
+	var sl *ssa.Slice
+	switch b := ia.X.(type) {
+	case *ssa.Slice:
+		sl = b
+		al, _ = b.X.(*ssa.Alloc)
+		if b.Low != nil || b.High != nil || b.Max != nil {
+			return nil
+		}
+	case *ssa.Alloc:
+		al = b
+	}
+	if al == nil || al.Referrers() == nil {
+		return nil
+	}
+	arr, ok := al.Type().(*types.Pointer).Elem().Underlying().(*types.Array)
+	if !ok {
+		return nil
+	}
+	if _, isSig := arr.Elem().Underlying().(*types.Signature); !isSig {
+		return nil
+	}
+	elems := make([]*ssa.Function, arr.Len())
+	onlyLoaded := func(a *ssa.IndexAddr) bool {
+		if a.Referrers() == nil {
+			return true
+		}
+		for _, r := range *a.Referrers() {
+			switch u := r.(type) {
+			case *ssa.UnOp:
+				if u.Op != token.MUL {
+					return false
+				}
+			case *ssa.DebugRef:
+			default:
+				return false
+			}
+		}
+		return true
+	}
+	for _, r := range *al.Referrers() {
+		switch u := r.(type) {
+		case *ssa.IndexAddr:
+			k, isConst := constInt(u.Index)
+			if !isConst {
+				if !onlyLoaded(u) {
+					return nil
+				}
+				continue
+			}
+			if k < 0 || k >= arr.Len() || u.Referrers() == nil {
+				return nil
+			}
+			for _, r2 := range *u.Referrers() {
+				switch st := r2.(type) {
+				case *ssa.Store:
+					if st.Addr != ssa.Value(u) || elems[k] != nil {
+						return nil
+					}
+					f := c09FuncValue(st.Val)
+					if f == nil || f.Blocks == nil {
+						return nil
+					}
+					elems[k] = f
+				case *ssa.UnOp, *ssa.DebugRef:
+				default:
+					return nil
+				}
+			}
+		case *ssa.Slice:
+			if sl != nil && u != sl {
+				return nil
+			}
+			if u.Referrers() == nil {
+				continue
+			}
+			for _, r2 := range *u.Referrers() {
+				switch x := r2.(type) {
+				case *ssa.IndexAddr:
+					if !onlyLoaded(x) {
+						return nil
+					}
+				case *ssa.Call:
+					if b, isB := x.Common().Value.(*ssa.Builtin); !isB || b.Name() != "len" {
+						return nil
+					}
+				case *ssa.DebugRef:
+				default:
+					return nil // the table escapes (appended to, passed on, stored)
+				}
+			}
+		case *ssa.DebugRef:
+		default:
+			return nil
+		}
+	}
+	for _, f := range elems {
+		if f == nil {
+			return nil
+		}
+	}
+	tc := &c09TableCall{Site: ci, Elems: elems}
+	// forward range: index = phi [-1, index+1] and the loop is left at len
+	if bo, ok := ia.Index.(*ssa.BinOp); ok && bo.Op == token.ADD {
+		if one, isOne := constInt(bo.Y); isOne && one == 1 {
+			if ph, ok := bo.X.(*ssa.Phi); ok && len(ph.Edges) == 2 {
+				for i, e := range ph.Edges {
+					if m, isC := constInt(e); isC && m == -1 && ph.Edges[1-i] == ssa.Value(bo) {
+						tc.Ordered = true
+					}
+				}
+			}
+		}
+	}
+	return tc
+}
+
+// c09Tables finds the table calls of the module and completes the call graph with their
+// edges (once per loaded program). Memoised analyses that were built on the incomplete
+// graph are dropped.
+func c09Tables(w *World) *c09TableInfo {
+	if ti, ok := w.memo["c09tables"].(*c09TableInfo); ok {
+		return ti
+	}
+	ti := &c09TableInfo{bySite: map[ssa.CallInstruction]*c09TableCall{}, byFn: map[*ssa.Function][]*c09TableCall{}, parent: map[*ssa.Function]*c09TableCall{}}
+	w.memo["c09tables"] = ti
+	cg := w.callGraph()
+	added := false
+	for _, fn := range w.ModFuncs {
+		for _, b := range fn.Blocks {
+			for _, in := range b.Instrs {
+				ci, ok := in.(ssa.CallInstruction)
+				if !ok {
+					continue
+				}
+				tc := c09TableCallOf(ci)
+				if tc == nil {
+					continue
+				}
+				ti.bySite[ci] = tc
+				ti.byFn[fn] = append(ti.byFn[fn], tc)
+				for _, el := range tc.Elems {
+					ti.parent[el] = tc
+					have := false
+					for _, e := range cg.callees[fn] {
+						if e.Site == ci && e.Callee == el {
+							have = true
+						}
+					}
+					if !have {
+						cg.callees[fn] = append(cg.callees[fn], callEdge{ci, el})
+						cg.callers[el] = append(cg.callers[el], callSite{fn, ci})
+						added = true
+					}
+				}
+			}
+		}
+	}
+	if added {
+		delete(w.memo, "effects")
+		delete(w.memo, "lockinfo")
+	}
+	return ti
+}
+
+// ---------------------------------------------------------------------------
+// Variables captured by closures live in heap cells (Alloc) that the closures reach through
+// FreeVars. A cell that is assigned exactly once stands for the assigned value.
+
+// c09CellOf resolves the address x (an Alloc, or a FreeVar bound to one) to the cell.
+func c09CellOf(x ssa.Value, depth int) *ssa.Alloc {
+	if depth > 4 {
+		return nil
+	}
+	switch a := x.(type) {
+	case *ssa.Alloc:
+		return a
+	case *ssa.FreeVar:
+		fn := a.Parent()
+		idx := -1
+		for i, f := range fn.FreeVars {
+			if f == a {
+				idx = i
+			}
+		}
+		par := fn.Parent()
+		if idx < 0 || par == nil {
+			return nil
+		}
+		var cell *ssa.Alloc
+		for _, b := range par.Blocks {
+			for _, in := range b.Instrs {
+				mc, ok := in.(*ssa.MakeClosure)
+				if !ok || mc.Fn != ssa.Value(fn) || idx >= len(mc.Bindings) {
+					continue
+				}
+				c := c09CellOf(mc.Bindings[idx], depth+1)
+				if c == nil || (cell != nil && cell != c) {
+					return nil
+				}
+				cell = c
+			}
+		}
+		return cell
+	}
+	return nil
+}
+
+// c09CellStores: every value stored into the cell, by its function or by closures capturing it.
+// ok is false when the cell's address escapes in another way.
+func c09CellStores(al *ssa.Alloc) (vals []ssa.Value, ok bool) {
+	ok = true
+	var visit func(addr ssa.Value, depth int)
+	visit = func(addr ssa.Value, depth int) {
+		if addr.Referrers() == nil || depth > 4 {
+			return
+		}
+		for _, r := range *addr.Referrers() {
+			switch u := r.(type) {
+			case *ssa.Store:
+				if u.Addr == addr {
+					vals = append(vals, u.Val)
+				} else {
+					ok = false
+				}
+			case *ssa.UnOp, *ssa.DebugRef:
+			case *ssa.MakeClosure:
+				f, isF := u.Fn.(*ssa.Function)
+				if !isF {
+					ok = false
+					continue
+				}
+				for i, b := range u.Bindings {
+					if b == addr && i < len(f.FreeVars) {
+						visit(f.FreeVars[i], depth+1)
+					}
+				}
+			default:
+				ok = false
+			}
+		}
+	}
+	visit(al, 0)
+	return
+}
+
+// c09Resolve looks through conversions and through loads of single-assignment cells.
+func c09Resolve(v ssa.Value) ssa.Value {
+	for i := 0; i < 8; i++ {
+		v = stripConv(v)
+		ld, ok := v.(*ssa.UnOp)
+		if !ok || ld.Op != token.MUL {
+			return v
+		}
+		cell := c09CellOf(ld.X, 0)
+		if cell == nil {
+			return v
+		}
+		vals, ok := c09CellStores(cell)
+		if !ok || len(vals) != 1 {
+			return v
+		}
+		v = vals[0]
+	}
+	return v
+}
+
+// c09DerivesFromDevicePk: v is computed from the DevicePk field of message headers (the
+// sender's device key as carried by the message), looking through calls, cells and closures.
+func c09DerivesFromDevicePk(v ssa.Value, depth int, seen map[ssa.Value]bool) bool {
+	if v == nil || depth > 8 || seen[v] {
+		return false
+	}
+	seen[v] = true
+	v2 := c09Resolve(v)
+	if v2 != v {
+		return c09DerivesFromDevicePk(v2, depth+1, seen)
+	}
+	isHeaders := func(t types.Type) bool { return isNamed(t, pkgTypes, "MessageHeaders") }
+	switch x := v.(type) {
+	case *ssa.UnOp:
+		return c09DerivesFromDevicePk(x.X, depth+1, seen)
+	case *ssa.FieldAddr:
+		if pt, ok := x.X.Type().Underlying().(*types.Pointer); ok && isHeaders(pt.Elem()) {
+			return pt.Elem().Underlying().(*types.Struct).Field(x.Field).Name() == "DevicePk"
+		}
+	case *ssa.Field:
+		if isHeaders(x.X.Type()) {
+			return x.X.Type().Underlying().(*types.Struct).Field(x.Field).Name() == "DevicePk"
+		}
+	case *ssa.Extract:
+		return c09DerivesFromDevicePk(x.Tuple, depth+1, seen)
+	case *ssa.Phi:
+		for _, e := range x.Edges {
+			if c09DerivesFromDevicePk(e, depth+1, seen) {
+				return true
+			}
+		}
+	case *ssa.Slice:
+		return c09DerivesFromDevicePk(x.X, depth+1, seen)
+	case *ssa.Call:
+		cc := x.Common()
+		if f := staticCallee(cc); f != nil && f.Name() == "GetDevicePk" && len(cc.Args) == 1 && isHeaders(cc.Args[0].Type()) {
+			return true
+		}
+		if cc.IsInvoke() && c09DerivesFromDevicePk(cc.Value, depth+1, seen) {
+			return true
+		}
+		for _, a := range cc.Args {
+			if c09DerivesFromDevicePk(a, depth+1, seen) {
+				return true
+			}
+		}
+	}
+	return false
 }
